@@ -99,8 +99,10 @@ def file_text(f):
     return "".join(it_text(i) + "\n" for i in f)
 
 
-def sources(linked, table):
-    files = [(f"f{i}.mac", file_text(f)) for i, f in enumerate(linked)]
+def sources(linked, table, link=False):
+    """link=True: '.link 1000' first, so that addresses are known while walking and every '.word name' is evaluated
+    as soon as it is met (otherwise '.word' waits for the link base, i.e. for the end)"""
+    files = [(f"f{i}.mac", (".link 1000\n" if (link and i == 0) else "") + file_text(f)) for i, f in enumerate(linked)]
     fs = {f"inc{i}.mac": file_text(f) for i, f in enumerate(table)}
     return files, fs
 
@@ -324,13 +326,15 @@ def all_cases(rng, tier, scale=1):
     n = (1500 if quick else 12000) * scale
     for _ in range(n):
         cases.append(gen_sampled(rng) if rng.random() < 0.4 else gen_clean(rng))
+    # every program twice: use sites evaluated at the end (no link base yet) and as soon as met ('.link' first)
+    cases = cases + [(k + "+link", l, t) for k, l, t in cases]
     return cases, fams
 
 
 def run_cases(rep, cases, spec_only=False, tag=ID):
     jobs = []
     for kind, linked, table in cases:
-        files, fs = sources(linked, table)
+        files, fs = sources(linked, table, link=kind.endswith("+link"))
         jobs.append(((files,), {"fs": fs, "want_symbols": True, "watchdog": 10}))
     outs = impl.pmap("assemble", jobs)
     terms, pys = [], []
@@ -345,9 +349,9 @@ def run_cases(rep, cases, spec_only=False, tag=ID):
     flat = [c for sh in codes for c in sh]
     for (kind, linked, table), o, py, code, term in zip(cases, outs, pys, flat, terms):
         rep.add_eval()
-        fam = kind.split(":")[0]
+        fam = kind.split(":")[0].replace("+link", "") + ("+link" if kind.endswith("+link") else "")
         rep.count(f"{fam}:{o['outcome']}" + (":" + ",".join(py[1]) if py[0] == "failed" else ""))
-        files, fs = sources(linked, table)
+        files, fs = sources(linked, table, link=kind.endswith("+link"))
         nrefs = sum(t.count(".word") for _, t in files) + sum(t.count(".word") for t in fs.values())
         ndefs = sum(t.count(":") + t.count("=") for _, t in files)
         if nrefs >= 1 and ndefs >= 2:
@@ -382,7 +386,7 @@ def explore(rep, br, tier, seed, spec_only=False):
     k = 0
     for idx in (0, len(fams[0]), len(fams[0]) + len(fams[1]), len(cases) - 1):
         kind, linked, table = cases[idx]
-        files, fs = sources(linked, table)
+        files, fs = sources(linked, table, link=kind.endswith("+link"))
         rep.sample({"kind": kind, "files": files, "fs": fs, "impl": {"outcome": outs[idx]["outcome"], "code": outs[idx].get("code")}})
 
 
